@@ -1869,13 +1869,15 @@ impl Server {
         
         let mut new_members = 0;
         
-        // Process each score-member pair
+        // Validate every score-member pair before touching the dataset, so that a refused
+        // command adds nothing. A score that is not a number (NaN) is never stored.
+        let mut pairs = Vec::with_capacity((parts.len() - 2) / 2);
         for i in (2..parts.len()).step_by(2) {
             let score = match &parts[i] {
                 RespFrame::BulkString(Some(bytes)) => {
                     match String::from_utf8_lossy(bytes).parse::<f64>() {
-                        Ok(n) => n,
-                        Err(_) => return Ok(RespFrame::error("ERR value is not a valid float")),
+                        Ok(n) if !n.is_nan() => n,
+                        _ => return Ok(RespFrame::error("ERR value is not a valid float")),
                     }
                 }
                 _ => return Ok(RespFrame::error("ERR invalid score format")),
@@ -1886,7 +1888,11 @@ impl Server {
                 _ => return Ok(RespFrame::error("ERR invalid member format")),
             };
             
-            // Add to sorted set 
+            pairs.push((score, member));
+        }
+        
+        // Add to sorted set
+        for (score, member) in pairs {
             if self.storage.zadd(db, key.clone(), member, score)? {
                 new_members += 1;
             }
@@ -2343,8 +2349,8 @@ impl Server {
         let increment = match &parts[2] {
             RespFrame::BulkString(Some(bytes)) => {
                 match String::from_utf8_lossy(bytes).parse::<f64>() {
-                    Ok(n) => n,
-                    Err(_) => return Ok(RespFrame::error("ERR value is not a valid float")),
+                    Ok(n) if !n.is_nan() => n,
+                    _ => return Ok(RespFrame::error("ERR value is not a valid float")),
                 }
             }
             _ => return Ok(RespFrame::error("ERR invalid increment format")),
